@@ -132,6 +132,8 @@ pub enum Op {
     Rollback(usize),
     Read(Key),
     CheckAll { proofs: usize },
+    Arm,    // E-io: start counting I/O events (observer loaded with LD_PRELOAD)
+    Disarm, // E-io: stop counting
 }
 
 fn acc_str(a: &Acc) -> String {
@@ -188,6 +190,8 @@ impl Op {
             Op::Rollback(n) => format!("rollback {}", n),
             Op::Read(k) => format!("read {}", hex(k)),
             Op::CheckAll { proofs } => format!("checkall {}", proofs),
+            Op::Arm => "arm".into(),
+            Op::Disarm => "disarm".into(),
         }
     }
     pub fn parse(line: &str) -> Op {
@@ -223,6 +227,8 @@ impl Op {
             "rollback" => Op::Rollback(t[0].parse().unwrap()),
             "read" => Op::Read(key_from_hex(t[0])),
             "checkall" => Op::CheckAll { proofs: t[0].parse().unwrap() },
+            "arm" => Op::Arm,
+            "disarm" => Op::Disarm,
             _ => panic!("bad op line {:?}", line),
         }
     }
@@ -659,6 +665,7 @@ impl<H: HashAlgorithm> Runner<H> {
     pub fn step(&mut self, i: usize, op: &Op) -> R {
         self.stats.ops += 1;
         match op {
+            Op::Arm | Op::Disarm => Ok(()),
             Op::Open(cfg) => {
                 assert!(self.db.is_none(), "script: open while open");
                 // A handle's background threads may release the directory lock shortly after the
@@ -1011,6 +1018,57 @@ impl<H: HashAlgorithm> Runner<H> {
                 Ok(())
             }
         }
+    }
+
+    pub fn vhashes_snapshot(&self) -> HashMap<u32, [u8; 32]> {
+        self.vhashes.clone()
+    }
+
+    pub fn vals_snapshot(&self) -> HashMap<[u8; 32], u32> {
+        self.vals.clone()
+    }
+
+    /// Drive only the model through simple session/commit/rollback ops (no implementation calls).
+    /// Read priors are irrelevant to the model. Used by E-io to compute the expected states.
+    pub fn model_only(&mut self, ops: &[Op]) {
+        let mut chains: HashMap<u32, Vec<u32>> = HashMap::new();
+        for op in ops {
+            match op {
+                Op::Begin { s, chain, .. } => {
+                    let r = self.model.ask(&format!("session {}", chain.iter().map(|x| x.to_string()).collect::<Vec<_>>().join(" ")));
+                    assert!(r.starts_with("ok"), "model_only: chain refused: {}", r);
+                    chains.insert(*s, r[2..].split(' ').filter(|x| !x.is_empty()).map(|x| x.parse().unwrap()).collect());
+                }
+                Op::Finish { s, c, batch } => {
+                    let chain = chains.remove(s).unwrap_or_default();
+                    let mut entries = Vec::new();
+                    for (k, a) in batch {
+                        self.touched.insert(*k);
+                        match a {
+                            Acc::Read => entries.push(format!("{}:r", hex(k))),
+                            Acc::Write(d) | Acc::ReadWrite(d) => match d {
+                                None => entries.push(format!("{}:d", hex(k))),
+                                Some(d) => {
+                                    let id = self.intern(*d).0;
+                                    entries.push(format!("{}:w{}", hex(k), id))
+                                }
+                            },
+                        }
+                    }
+                    self.model.expect_ok(&format!("finish {} {} -- {}", c, chain.iter().map(|x| x.to_string()).collect::<Vec<_>>().join(" "), entries.join(" ")));
+                }
+                Op::Overlay { c } => self.model.expect_ok(&format!("overlay {}", c)),
+                Op::Commit { c, .. } => {
+                    let r = self.model.ask(&format!("commit {} 0", c));
+                    assert!(r == "ok", "model_only: commit {}", r);
+                }
+                Op::Rollback(n) => {
+                    let _ = self.model.ask(&format!("rollback {}", n));
+                }
+                _ => {}
+            }
+        }
+        self.invalidate();
     }
 
     pub fn run(&mut self, ops: &[Op]) -> R {
